@@ -30,9 +30,13 @@ def stream_reads(ctx, built):
     saved = S._get_default_salt; S._get_default_salt = lambda: b"12345678"
     lines, exps, cases = [], [], []
     try:
-        for bi in range(ctx.scale(2, 10)):
+        for bi in range(ctx.scale(3, 10)):
             ncols = R.choice([3, 4, 5]) if ctx.tier == "quick" else R.choice([3, 4, 5, 6])
-            df, pids, kinds = BS.gen_dataset(R, 1, ncols=ncols, with_pids=R.random() < 0.4, n=R.choice([150, 300]))
+            # one blob of integer and real columns only (a stitched answer is then assembled from all-numeric tables, where a conversion through
+            # one common numpy dtype would turn integers into reals), one of integer / real / text
+            force = [["int", "float"], None, ["int", "float", "str"]][bi % 3] if bi < 6 else None
+            if force and ncols < 4: ncols = 4
+            df, pids, kinds = BS.gen_dataset(R, 1, ncols=ncols, with_pids=R.random() < 0.4, n=R.choice([150, 300]), force_kinds=force)
             if bi % 2 == 0:      # column names that share a long prefix or differ only in characters that file names sanitise
                 fam = ["temperature_sensor_inlet", "temperature_sensor_outlet", "temperature_sensor_in let", "x y", "x_y", "x:y"]
                 if R.random() < 0.5:      # the names that differ only in a sanitised character first, so that small tables have them too
